@@ -64,6 +64,26 @@ def run(ctx):
                                       [(0, 1, 0), (0, 0, 0)], maxlen=3, extra='aBe', extra_flags=Fm.IGNORECASE)
     ev, nt = ev + ev2 + ev4, nt + nt2 + nt4
     mism = dmism + mism + mism2 + mism4
+    # POSIX classes are the C-locale ones for str as for bytes: no code point above 0x7f is in any of them (case-sensitive mode)
+    ncls = 0
+    classes = ['alnum', 'alpha', 'ascii', 'blank', 'cntrl', 'digit', 'graph', 'lower', 'print', 'punct', 'space', 'upper', 'word', 'xdigit']
+    doc = {'ascii': lambda o: o < 128, 'cntrl': lambda o: o < 32 or o == 127}
+    probes = ['\u0663', '\xa0', '\xe9', '\x1c', '\x1f', '\uff15', '\u03a3', '\xdf', '\x85', '\u2028', '\u2003', '\u0660', '\u00b2', '\u4e00', '\u0130', '\x7f', '\xaa']
+    for cl in classes:
+        for ch_ in probes:
+            want = doc.get(cl, lambda o: False)(ord(ch_)) if ord(ch_) > 127 or ord(ch_) < 32 or ord(ch_) == 127 else None
+            if want is None:
+                continue
+            for form, neg in (('[[:%s:]]' % cl, False), ('[![:%s:]]' % cl, True), ('x[[:%s:]]y' % cl, False), ('+([[:%s:]])' % cl, False), ('[[:%s:]_]' % cl, False)):
+                ncls += 1
+                name_ = ('x' + ch_ + 'y') if form.startswith('x') else ch_
+                fl_c = Fm.FORCEUNIX | Fm.CASE | Fm.EXTMATCH | Fm.DOTMATCH
+                got = [Fm.fnmatch(name_, form, flags=fl_c), Fm.filter([name_], form, flags=fl_c) == [name_], Fm.compile(form, flags=fl_c).match(name_)]
+                if got != [want != neg] * 3:
+                    ctx.counterexample('fnmatch(%r, %r) = %r: U+%04X is%s in the C-locale class %s' % (name_, form, got, ord(ch_), '' if want else ' not', cl),
+                                       {'name': name_, 'pattern': form, 'class': cl, 'code_point': ord(ch_), 'got': got})
+                    break
+    ctx.counted('POSIX classes on non-ASCII code points', ncls, ncls // 2, [{'pattern': '[[:digit:]]', 'name': '\u0663'}])
     hits, rest = common.attribute(
         ctx, mism, classifiers(),
         lambda m: 'fnmatch %s(%r, %r, %s) = %r but the documented language says %s' % (
